@@ -250,7 +250,9 @@ func (e *Exec) applyContract(ct *Contract, fn *ssa.Function, args []Val, reach T
 	if ct.Trusted {
 		e.trusted["trusted contract: "+fullKey(fn)] = true
 	}
+	e.prog.mu.Lock()
 	e.prog.usedContracts[fullKey(fn)] = true
+	e.prog.mu.Unlock()
 	return res, reach
 }
 
@@ -285,7 +287,9 @@ func (e *Exec) libraryCall(fn *ssa.Function, args []Val, reach Term, st *State, 
 	for i := 0; i < rs.Len(); i++ {
 		res = append(res, c.freshVal(rs.At(i).Type(), "lib_"+fn.Name()))
 	}
+	e.prog.mu.Lock()
 	e.prog.libCalls[name] = true
+	e.prog.mu.Unlock()
 	switch name {
 	case "errors.New", "fmt.Errorf":
 		c.assume(c.implies(reach, c.not(c.eq(res[0].T(), Term{"nil_iface", sortIface}))), "errors.New != nil")
